@@ -93,7 +93,8 @@ def value_from_model(model, heap, v, depth=0):
         if isinstance(o, PDict):
             return {k: value_from_model(model, heap, x, depth + 1) for k, x in o.items.items()}
         if isinstance(o, Obj):
-            return {"__obj__": o.cls, **{k: value_from_model(model, heap, x, depth + 1) for k, x in o.fields.items()}}
+            tag = "__record__" if o.tuple_fields is not None else "__obj__"
+            return {tag: o.cls, **{k: value_from_model(model, heap, x, depth + 1) for k, x in o.fields.items()}}
         return repr(o)
     if isinstance(v, bm.Kwargs):
         return {"__kwargs__": {k: value_from_model(model, heap, x, depth + 1) for k, x in v.known.items()}}
@@ -202,7 +203,7 @@ def worker(task):
         dig = [res.digest or ""]
         for k in sorted(res.inlined):
             try:
-                dig.append(source.source_digest(*k.split(":")))
+                dig.append(source.source_digest(*k.replace("auto:", "").split(":")))
             except Exception:
                 dig.append("?")
         import hashlib
@@ -313,7 +314,14 @@ def write_replay(prop, key, contract: Contract, rec):
     d = VERIF / "replays" / prop
     d.mkdir(parents=True, exist_ok=True)
     fn = d / (re.sub(r"[^\w.\-\[\]#]+", "_", rec["name"]) + ".py")
-    if "model" in rec:
+    def abstract(v):
+        if isinstance(v, dict):
+            return "__obj__" in v or "__opaque__" in v or any(abstract(x) for x in v.values())
+        if isinstance(v, (list, tuple)):
+            return any(abstract(x) for x in v)
+        return False
+
+    if "model" in rec and (contract.replay or not abstract(rec["model"])):
         txt = REPLAY_TEMPLATE.format(
             prop=prop, name=rec["name"], key=key, clause=rec.get("clause", ""), args=rec["model"], kind=rec["kind"],
             raises={k: (v if v is True else str(v)) for k, v in contract.raises.items()},
@@ -492,7 +500,7 @@ def main(argv=None):
         reproduced = False
         if has_input:
             rc, outp = run_replay(path)
-            reproduced = rc == 1
+            reproduced = rc == 1 and "REPRODUCED" in outp and "NOT-REPRODUCED" not in outp
             o["replay_rc"] = rc
             o["replay_out"] = outp[-600:]
         suffix = "" if reproduced else " no-failing-input-found"
